@@ -470,10 +470,10 @@ class Tensor:
         return self * other
 
     def __truediv__(self, other) -> 'Tensor': # self / other
-        return self * other**-1
+        return self * other**-1.0
 
     def __rtruediv__(self, other) -> 'Tensor': # other / self
-        return other * self**-1
+        return other * self**-1.0 # float exponent: numpy refuses negative integer powers of integer arrays
     
     def __getitem__(self, key) -> 'Tensor':
         return F.slice(self, key)
